@@ -39,6 +39,16 @@ def lib_parse(s, auto_slot):
         enc = PADDED_EPATH.encode(route, length=True)
     except DataError as e:
         return ("reject", "encode", e)
+    # the returned list belongs to the caller (LogixDriver pops its last segment for Micro800 targets):
+    # emptying it must not change what a later parse of the same string returns
+    try:
+        del route[:]
+        host2, port2, route2 = parse_connection_path(s, auto_slot)
+        enc2 = PADDED_EPATH.encode(route2, length=True)
+    except Exception as e:
+        return ("impure", f"second parse raised {e!r}")
+    if (host2, port2, bytes(enc2)) != (host, port, bytes(enc)):
+        return ("impure", f"first parse gave route {bytes(enc).hex()}, after the caller emptied the returned list a second parse gives {bytes(enc2).hex()}")
     return ("ok", host, port, bytes(enc))
 
 
@@ -55,6 +65,8 @@ def check_string(s, auto_slot, expect_valid):
     if (ref[0] == "ok") != expect_valid:
         from ..runner import HarnessError
         raise HarnessError(f"generator/reference disagreement on {s!r}: {ref}")
+    if got[0] == "impure":
+        return [Disc("parse.shared-state", f"{s!r} auto_slot={auto_slot}: {got[1]}")]
     if ref[0] == "ok":
         if got[0] != "ok":
             return [Disc(f"valid-rejected.{got[1]}", f"{s!r} auto_slot={auto_slot}: {got[2]!r}")]
